@@ -99,6 +99,9 @@ mod imp {
             }
             ev["asserted"] = json!(asserted);
             ev["msg"] = json!(""); ev["site"] = json!("");
+            // fields of the flat-explanation events of TraceProofs.tla (not used here)
+            ev["flat_status"] = json!("none"); ev["flat_msg"] = json!(""); ev["plain"] = json!(false);
+            ev["flat"] = json!({"start": ev["query"]["l"].clone(), "steps": []});
             writeln!(out, "{ev}").unwrap();
         }
         println!("{}", json!({"kind":"summary","confirmations":fs.len()}));
